@@ -29,7 +29,6 @@ CFG = {
         "Swat4.C09.C09_reader_finishes",
         "Swat4.C09.Example.init_s0",
         "Swat4.C09.facts_ok",
-        "Swat4.C09.start_attempts",
         "Swat4.C09.C09_refines_spec",
         "Swat4.C09.C09_committed_result_spec",
         "Swat4.C09.C09_committedOps_length",
@@ -37,7 +36,6 @@ CFG = {
         "Swat4.C09.Example.init_s1",
         "Swat4.C09.facts_writes_fenced",
         "Swat4.C09.facts_tx_calls",
-        "Swat4.C09.facts_writers_exec_on_tx",
         "Swat4.C09.facts_tx_provenance",
         "Swat4.C09.facts_lock_key",
         "Swat4.C09.facts_lock_setnx",
@@ -49,6 +47,12 @@ CFG = {
         "Swat4.C09.facts_fence_check",
         "Swat4.C09.facts_write_keys",
         "Swat4.C09.facts_decode_plain",
+    ],
+    # proved in the Lean files and used by other proofs, but NOT audited as property theorems: each is a
+    # read-back of a definition, glue between two names, true by type, or a corollary of an audited theorem
+    "supporting": [
+        {"name": "Swat4.C09.start_attempts", "why": "read-back of the definition (`rfl` on `Writer.start`)"},
+        {"name": "Swat4.C09.facts_writers_exec_on_tx", "why": "redundant: read off the literal list that `facts_tx_calls` already pins"},
     ],
     "shards": (4, 16),
     "nontrivial": _c09_nontrivial,
@@ -72,7 +76,7 @@ CFG = {
         "address the rows are written under, one SetNX carrying the lease as TTL and no separate expire, token drawn inside "
         "Guard, release = GET then a separate DEL - is no longer an unchecked assumption: it is regenerated from the Go source "
         "on every run (Gen/Facts.lean, section storewrites) and pinned literally by facts_writes_fenced, facts_tx_calls, "
-        "facts_writers_exec_on_tx, facts_tx_provenance, facts_lock_key, facts_lock_setnx; what remains assumed is that the "
+        "facts_tx_provenance, facts_lock_key, facts_lock_setnx; what remains assumed is that the "
         "syntactic shape means what it says (go-redis: TxPipelined on a *redis.Tx sends MULTI..EXEC on the WATCHing connection)",
         "real time (1 s lease, 100 ms backoff) is abstracted to nondeterministic expire/tick events; crashes = a client that is "
         "never scheduled again (all theorems hold for every schedule, so also for those)",
